@@ -38,6 +38,38 @@ type cliResult struct {
 	timedOut bool
 }
 
+func runOctoTo(stdoutTo, bin, home, dir string, args ...string) cliResult {
+	if stdoutTo == "" {
+		return runOcto(bin, home, dir, args...)
+	}
+	ctx, cancel := context.WithTimeout(context.Background(), 20*time.Second)
+	defer cancel()
+	cmd := exec.CommandContext(ctx, bin, args...)
+	cmd.Dir = dir
+	cmd.Env = []string{"OCTOSQL_NO_TELEMETRY=1", "HOME=" + home, "PATH=/usr/bin:/bin"}
+	out, err := os.OpenFile(stdoutTo, os.O_WRONLY, 0)
+	if err != nil {
+		return cliResult{exit: -2, stderr: err.Error()}
+	}
+	defer out.Close()
+	var se bytes.Buffer
+	cmd.Stdout, cmd.Stderr = out, &se
+	err = cmd.Run()
+	res := cliResult{stderr: se.String()}
+	if ctx.Err() != nil {
+		res.timedOut, res.exit = true, -1
+		return res
+	}
+	if err != nil {
+		if ee, ok := err.(*exec.ExitError); ok {
+			res.exit = ee.ExitCode()
+		} else {
+			res.exit = -2
+		}
+	}
+	return res
+}
+
 func runOcto(bin, home, dir string, args ...string) cliResult {
 	ctx, cancel := context.WithTimeout(context.Background(), 20*time.Second)
 	defer cancel()
@@ -72,6 +104,9 @@ type cliCase struct {
 	mustFail bool              // the failure is certainly reached
 	class    string            // known-finding class, if the case meets one
 	note     string
+	calib    string   // calibration query over the same files (must exit 0); default: the clean files / panic( replaced
+	stdoutTo string   // where stdout goes ("" = a buffer; "/dev/full" = every write fails)
+	dirs     []string // directories to create (a directory named like a table)
 }
 
 // badTexts: what a malformed row says.  Datasource errors quote the offending input, so the text of a runtime error
@@ -296,6 +331,8 @@ func runCLI(cf *lib.CaseFile, rng *lib.Rng, f lib.Flags) {
 		cases = append(cases, c)
 	}
 
+	cases = append(cases, cliMatrix()...)
+
 	type outcome struct {
 		calibrated bool
 		calib      cliResult
@@ -322,6 +359,12 @@ func runCLI(cf *lib.CaseFile, rng *lib.Rng, f lib.Flags) {
 				gfiles = c.files
 				gq = strings.ReplaceAll(gq, "panic(", "upper(")
 			}
+			if c.calib != "" {
+				gq = c.calib
+			}
+			for _, d := range c.dirs {
+				os.MkdirAll(filepath.Join(dir, d), 0o755)
+			}
 			for name, content := range gfiles {
 				os.WriteFile(filepath.Join(gdir, name), []byte(content), 0o644)
 			}
@@ -330,7 +373,7 @@ func runCLI(cf *lib.CaseFile, rng *lib.Rng, f lib.Flags) {
 			for name, content := range c.files {
 				os.WriteFile(filepath.Join(dir, name), []byte(content), 0o644)
 			}
-			outs[i].res = runOcto(bin, home, dir, c.query, "-o", c.format)
+			outs[i].res = runOctoTo(c.stdoutTo, bin, home, dir, c.query, "-o", c.format)
 		}(i)
 	}
 	wg.Wait()
@@ -400,4 +443,134 @@ func clip(s string, n int) string {
 		return s[:n] + "..."
 	}
 	return s
+}
+
+// cliMatrix: the deterministic failure-injection matrix through the CLI (the same in every run):
+//
+//	failure kind: division by zero / panic() / failed runtime type assertion, as the only, the second (after a strict
+//	  argument that is NULL on that row) or the first argument of a strict operator; malformed row; over-long line;
+//	  unreadable input (a directory named like a table); output write error (stdout = /dev/full)
+//	x row: first, middle, last   x operator above: plain, DISTINCT, ORDER BY, GROUP BY, WHERE, join, subquery expression,
+//	  ORDER BY .. LIMIT k whose k-th row is the failing one (and k-1: not reached)
+//	x projection: all columns, another column only, no column (COUNT(*))   x output format.
+func cliMatrix() []cliCase {
+	var out []cliCase
+	const n = 9
+	formats := []string{"json", "csv", "batch_table", "stream_native"}
+	fi := 0
+	next := func() string { fi++; return formats[fi%len(formats)] }
+	for _, k := range []int{0, n / 2, n - 1} {
+		// d.csv: i = row number, s string, n = NULL (empty cell) exactly on row k, g = i mod 2; u.csv: clean
+		var d, u, m strings.Builder
+		d.WriteString("i,s,n,g\n")
+		u.WriteString("i,g\n")
+		for i := 0; i < n; i++ {
+			nn := "5"
+			if i == k {
+				nn = ""
+			}
+			d.WriteString(fmt.Sprintf("%d,s%d,%s,%d\n", i, i, nn, i%2))
+			u.WriteString(fmt.Sprintf("%d,%d\n", i, i%2))
+			// m.json: a is NULL and b a String exactly on row k (a: NULL | Float, b: Float | String in the schema)
+			if i == k {
+				m.WriteString(fmt.Sprintf("{\"i\": %d, \"a\": null, \"b\": \"oops\"}\n", i))
+			} else {
+				m.WriteString(fmt.Sprintf("{\"i\": %d, \"a\": %d.5, \"b\": %d}\n", i, i, i))
+			}
+		}
+		// a second JSON file without the String, for calibration of the type assertion shapes
+		mgood := strings.ReplaceAll(m.String(), "\"oops\"", "7")
+		files := map[string]string{"d.csv": d.String(), "u.csv": u.String(), "m.json": m.String()}
+		div := fmt.Sprintf("(10 / (t.i - %d))", k)
+		exprs := []struct{ name, x string }{
+			{"div_zero", div},
+			{"null_then_div_zero", "(t.n + " + div + ")"},
+			{"div_zero_then_null", "(" + div + " + t.n)"},
+			{"int_then_div_zero", "(t.i * " + div + ")"},
+			{"null_eq_panic", fmt.Sprintf("(t.n = int(panic(t.s)) OR t.i != %d)", k)},
+		}
+		wrappers := []struct{ name, q string }{
+			{"select", "SELECT X AS x FROM d.csv t"},
+			{"distinct", "SELECT DISTINCT X AS x FROM d.csv t"},
+			{"order_by", "SELECT q.x FROM (SELECT X AS x FROM d.csv t) q ORDER BY q.x"},
+			{"group_by_arg", "SELECT t.g, COUNT(X) AS c FROM d.csv t GROUP BY t.g"},
+			{"where", "SELECT t.i FROM d.csv t WHERE X IS NULL"},
+			{"join", "SELECT X AS x FROM d.csv t JOIN u.csv u ON t.i = u.i"},
+			{"subquery_expr", "SELECT u.i, (SELECT X AS x FROM d.csv t) AS l FROM u.csv u"},
+			{"above_order_by_limit_at", fmt.Sprintf("SELECT X AS x FROM (SELECT z.i AS i, z.s AS s, z.n AS n FROM d.csv z ORDER BY i LIMIT %d) t", k+1)},
+		}
+		for _, e := range exprs {
+			for _, w := range wrappers {
+				q := strings.ReplaceAll(w.q, "X", e.x)
+				calib := strings.ReplaceAll(strings.ReplaceAll(q, fmt.Sprintf("t.i - %d)", k), "t.i - 1000)"), "int(panic(t.s))", "5")
+				out = append(out, cliCase{name: "matrix_" + e.name + "_" + w.name, query: q, calib: calib, format: next(), files: files, mustFail: true,
+					note: fmt.Sprintf("%s fails exactly on row %d of %d (n is NULL on that row); %s", e.name, k, n, w.name)})
+			}
+			if k > 0 { // ORDER BY .. LIMIT k ends one row before the failing one: not reached, must succeed
+				q := strings.ReplaceAll(fmt.Sprintf("SELECT X AS x FROM (SELECT z.i AS i, z.s AS s, z.n AS n FROM d.csv z ORDER BY i LIMIT %d) t", k), "X", e.x)
+				out = append(out, cliCase{name: "matrix_" + e.name + "_above_order_by_limit_before", query: q, calib: q, format: next(), files: files, mustFail: false,
+					note: "the failing row is cut off by the inner LIMIT: not reached"})
+			}
+		}
+		// failed runtime type assertion, also behind a NULL strict argument
+		for _, x := range []struct{ name, x string }{{"assert_second_after_null", "(t.a + t.b)"}, {"assert_first", "(t.b + t.a)"}, {"assert_alone", "(t.b + 1.5)"}} {
+			for _, w := range []string{"SELECT X AS x FROM m.json t", "SELECT DISTINCT X AS x FROM m.json t", "SELECT t.i FROM m.json t WHERE X IS NULL",
+				"SELECT q.x FROM (SELECT X AS x FROM m.json t) q ORDER BY q.x"} {
+				q := strings.ReplaceAll(w, "X", x.x)
+				out = append(out, cliCase{name: "matrix_" + x.name, query: q, format: next(), files: files,
+					good: map[string]string{"d.csv": d.String(), "u.csv": u.String(), "m.json": mgood}, mustFail: true,
+					note: fmt.Sprintf("b is a String (and a NULL) exactly on row %d of %d: the Float assertion of b fails there", k, n)})
+			}
+		}
+	}
+	// datasource failures x projection (all columns / another column / no column) x position
+	projections := func(cols ...string) []string {
+		qs := []string{"SELECT * FROM {T} t", "SELECT COUNT(*) FROM {T} t"}
+		for _, c := range cols {
+			qs = append(qs, "SELECT t."+c+" FROM {T} t", "SELECT MAX(t."+c+") FROM {T} t")
+		}
+		return qs
+	}
+	for _, bad := range []int{0, 130, 191, 192, 199} {
+		rows := 200
+		for _, q := range projections("a", "g") {
+			for _, kind := range []string{"text", "toolong"} {
+				if kind == "toolong" && bad < 100 {
+					continue
+				}
+				out = append(out, cliCase{name: "matrix_json_" + kind, query: strings.ReplaceAll(q, "{T}", "t.json"), format: next(), mustFail: true,
+					files: map[string]string{"t.json": jsonRows(rows, bad, kind, "limit reached")}, good: map[string]string{"t.json": jsonRows(rows, -1, "", "")},
+					note: fmt.Sprintf("%d rows, %s row at line %d", rows, kind, bad)})
+			}
+			out = append(out, cliCase{name: "matrix_csv_fields", query: strings.ReplaceAll(q, "{T}", "t.csv"), format: next(), mustFail: true,
+				files: map[string]string{"t.csv": csvRows(rows, bad, "fields", "x")}, good: map[string]string{"t.csv": csvRows(rows, -1, "", "")},
+				note: fmt.Sprintf("%d rows, wrong number of fields at line %d", rows, bad)})
+		}
+	}
+	for _, bad := range []int{1, 10, 19} {
+		for _, q := range []string{"SELECT * FROM t.lines t", "SELECT COUNT(*) FROM t.lines t", "SELECT t.number FROM t.lines t", "SELECT MAX(t.number) FROM t.lines t", "SELECT t.text FROM t.lines t"} {
+			out = append(out, cliCase{name: "matrix_lines_too_long", query: q, format: next(), mustFail: true,
+				files: map[string]string{"t.lines": linesRows(20, bad)}, good: map[string]string{"t.lines": linesRows(20, -1)},
+				note: fmt.Sprintf("20 lines, line %d is longer than the scanner's buffer", bad)})
+		}
+	}
+	// unreadable input: a directory named like a lines table (open succeeds, read fails)
+	for _, q := range []string{"SELECT * FROM dir.lines t", "SELECT COUNT(*) FROM dir.lines t", "SELECT t.number FROM dir.lines t", "SELECT DISTINCT t.text FROM dir.lines t"} {
+		out = append(out, cliCase{name: "matrix_unreadable_input", query: q, calib: strings.ReplaceAll(q, "dir.lines", "ok.lines"), format: next(), mustFail: true,
+			files: map[string]string{"ok.lines": "a\nb\n"}, dirs: []string{"dir.lines", "good/dir.lines"},
+			note: "dir.lines is a directory: every read fails"})
+	}
+	// output write error: every write to stdout fails; small results (they only reach stdout in the final flush)
+	small := map[string]string{"t.csv": csvRows(5, -1, "", "")}
+	for _, format := range formats {
+		for _, q := range []string{"SELECT * FROM t.csv t", "SELECT DISTINCT t.g FROM t.csv t", "SELECT t.a FROM t.csv t ORDER BY t.a DESC", "SELECT COUNT(*) FROM t.csv t"} {
+			class := ""
+			if format == "batch_table" || format == "stream_native" {
+				class = "output-write-error-ignored"
+			}
+			out = append(out, cliCase{name: "matrix_output_write_error_" + format, query: q, calib: q, format: format, files: small, mustFail: true, stdoutTo: "/dev/full", class: class,
+				note: "stdout is /dev/full: nothing can be written, so the output is not complete"})
+		}
+	}
+	return out
 }
